@@ -184,10 +184,26 @@ def gen_args(rng, with_bytes=True, depth=3, bits=64, maxn=4):
     return [gen_tree(rng, depth, [12], with_bytes, bits) for _ in range(n)]
 
 
+def gen_deep(rng, with_bytes=True):
+    """A value with a leaf (a byte string, if allowed) 9 to 40 containers
+    down: nesting depth is not limited by the protocol."""
+    depth = rng.choice([9, 12, 17, 20, 33, 40])
+    leaf = gen_bytes(rng) if with_bytes else 'leaf'
+    v = leaf
+    for i in range(depth):
+        if rng.random() < 0.5:
+            v = [v] if rng.random() < 0.7 else ['x', v, i]
+        else:
+            v = {'k%d' % (i % 3): v}
+    return v
+
+
 def gen_payload_arg(rng, with_bytes=True, bits=64):
     """What an application passes as `data` to emit(): None, a tuple, or a
     single value (incl. a list, which is ONE argument)."""
     r = rng.random()
+    if r > 0.97:
+        return gen_deep(rng, with_bytes)
     if r < 0.1:
         return None
     if r < 0.4:
